@@ -29,7 +29,7 @@ CLAUSES = [
 RULE = ("random relative sequences of <=12 (quick) / <=16 (thorough) messages over 2 channels and pitches {0,1,60,61} "
         "(pitches 0/1 collide with channel numbers), ill-formed on purpose, plus well-formed multi-channel sequences; "
         "non-trivial = contains at least one note-on and one of: re-trigger, orphan off, unclosed note, repeated signature")
-ASSUMPTIONS = ["model: SCoda.normalise (Model/Normalise.lean), tied by correspondence on the same inputs"]
+ASSUMPTIONS = ["model: SCoda.normalise (Model/Normalise.lean), tied by translation (RelTie2.normaliseRelative_eq: channels not None, pairwise distinct objects) and by correspondence on the same inputs"]
 
 
 def balanced(timed):
